@@ -129,7 +129,9 @@ package gochannel
 //@   ensures result.subscribers != nil && len(result.subscribers) == 0 && result.persistedMessages != nil && len(result.persistedMessages) == 0 && wg(result.subscribersWg) == 0 [no-subscribers-no-persisted-messages]
 
 //@ func (*GoChannel).Close
+//@   ghost joins-all g.subscribersWg: (*GoChannel).Subscribe$1
 //@   requires g != nil && g.logger != nil
+//@   assert @lock:g.persistedMessagesLock: forall s *subscriber :: mark(wgpending, wgref(g.subscribersWg), s) ==> s.closed && closed(s.outputChannel) [when-the-wait-returns-every-subscription-that-ever-took-a-token-has-its-output-channel-closed]
 //@   nopanic
 //@   ensures result == nil && g.closed && closed(g.closing) [closed-and-announced]
 //@   ensures wg(g.subscribersWg) == 0 [returns-only-when-every-subscription-has-been-torn-down]
@@ -196,7 +198,8 @@ package gochannel
 //@   inv loop 2: g.config.BlockPublishUntilSubscriberAck ==> (forall j int :: 0 <= j && j <= rangeindex ==> closed(sret(SM, 0, old(ncalls(SM)) + j)) || closed(g.closing)) [waited-for-each-so-far]
 
 //@ func (*GoChannel).Subscribe$1
-//@   ghost consumes-wg g.subscribersWg
+//@   ghost consumes-wg g.subscribersWg as s
+//@   gives @wgdone:g.subscribersWg: s.closed && closed(s.outputChannel) && closed(s.closing) [returns-its-token-only-after-its-subscription-was-closed]
 //@   ghost sole-writer s.closed
 //@   ghost owns s.closing
 //@   ghost set gone(s) = true @call:(*GoChannel).removeSubscriber
@@ -235,6 +238,7 @@ package gochannel
 //@   ensures old(g.closed) ==> result1 != nil && result0 == nil [a-closed-pubsub-refuses-to-subscribe]
 //@   ensures result1 != nil ==> result0 == nil && spawned("(*GoChannel).Subscribe$1") == old(spawned("(*GoChannel).Subscribe$1")) && wg(g.subscribersWg) == old(wg(g.subscribersWg)) [a-refused-subscribe-leaves-nothing-behind]
 //@   ensures result1 == nil ==> result0 != nil && spawned("(*GoChannel).Subscribe$1") == old(spawned("(*GoChannel).Subscribe$1")) + 1 && result0 == spawnarg("(*GoChannel).Subscribe$1", 0, old(spawned("(*GoChannel).Subscribe$1"))).outputChannel && spawnarg("(*GoChannel).Subscribe$1", 0, old(spawned("(*GoChannel).Subscribe$1"))).ctx == ctx && spawnarg("(*GoChannel).Subscribe$1", 1, old(spawned("(*GoChannel).Subscribe$1"))) == g [the-returned-channel-belongs-to-a-new-subscription-with-its-own-teardown-goroutine]
+//@   ensures result1 == nil ==> mark(wgpending, wgref(g.subscribersWg), spawnarg("(*GoChannel).Subscribe$1", 0, old(spawned("(*GoChannel).Subscribe$1")))) [and-that-subscription-holds-a-token-of-the-wait-group-Close-waits-for]
 //@   ensures result1 == nil && g.config.Persistent ==> spawned("(*GoChannel).Subscribe$2") == old(spawned("(*GoChannel).Subscribe$2")) + 1 && spawnarg("(*GoChannel).Subscribe$2", 0, old(spawned("(*GoChannel).Subscribe$2"))) == spawnarg("(*GoChannel).Subscribe$1", 0, old(spawned("(*GoChannel).Subscribe$1"))) [persistent-mode-hands-the-locks-to-the-replay-goroutine]
 //@   ensures result1 == nil && !g.config.Persistent ==> spawned("(*GoChannel).Subscribe$2") == old(spawned("(*GoChannel).Subscribe$2")) [no-replay-without-persistence]
 //@   assert @unlock:g.subscribersLock: !g.config.Persistent && (exists j int :: 0 <= j && j < len(g.subscribers[topic]) && g.subscribers[topic][j] == s) [registered-before-the-locks-are-released]
